@@ -207,7 +207,44 @@ func hostileStream(ch *Choices) ([]byte, string) {
 func hostileStreamN(ch *Choices) ([]byte, string, int) {
 	var b bytes.Buffer
 	f := &foreignBuilder{ch: ch, Features: map[string]int{}}
-	switch ch.Intn(13, "hostile.kind") {
+	switch ch.Intn(15, "hostile.kind") {
+	case 13:
+		// thousands of typed lists that name their type by REFERENCE to one earlier type string
+		n := ch.Range(500, 20000, "typerefs.n")
+		b.WriteByte(0x57)
+		b.WriteByte(0x70)
+		b.WriteByte(6)
+		b.WriteString("[int32")
+		for i := 0; i < n; i++ {
+			b.WriteByte(0x70)
+			b.WriteByte(0x90)
+		}
+		b.WriteByte('Z')
+		return b.Bytes(), fmt.Sprintf("%d empty typed lists naming their type by reference", n), 1
+	case 14:
+		// maps that contain themselves as key and / or value, untyped and typed (named map type)
+		typed := ch.Intn(2, "selfmap.typed") == 1
+		if typed {
+			b.WriteByte('M')
+			b.WriteByte(6)
+			b.WriteString("Labels")
+		} else {
+			b.WriteByte('H')
+		}
+		k := ch.Range(1, 3, "selfmap.n")
+		for i := 0; i < k; i++ {
+			if ch.Intn(2, "selfmap.key") == 1 {
+				b.WriteByte(0x51)
+				b.WriteByte(0x90)
+			} else {
+				b.WriteByte(1)
+				b.WriteByte(byte('a' + i))
+			}
+			b.WriteByte(0x51)
+			b.WriteByte(0x90)
+		}
+		b.WriteByte('Z')
+		return b.Bytes(), fmt.Sprintf("map (typed=%v) holding itself as key / value", typed), 1
 	case 12:
 		// thousands of objects whose list-typed field is a back-reference to ONE earlier list
 		n := ch.Range(2000, 20000, "fanin.n")
